@@ -1037,9 +1037,11 @@ def _check_registration_guards(run, repo, world):
            "the bank has no lock byte (`not self.has_lock`); the guard is "
            "`%s` (a latch-only bank also owns a LockByte object)"
            % " / ".join(unparse(t) for t in lock), where(mod, fn))
-    oko = any(unparse(t) in ("self.locations[location.address]",
-                             "self.locations[location.address] is not None")
-              for t in over)
+    # (a local bound once to the address is that address)
+    from .. import astq as _aq
+    oko = any(_aq.canon(fn, t) in (
+        "self.locations[location.address]",
+        "self.locations[location.address] is not None") for t in over)
     run.ob("R-MAP-GUARD", LOC + ".MemoryBank._add_memory_value#overlap",
            oko, "an already occupied location must be refused (guard `%s`)"
            % " / ".join(unparse(t) for t in over), where(mod, fn))
